@@ -126,9 +126,9 @@ class Contract:
         seq = seq if seq is not None else self.seq(name)
         return self.st.alloc(HIter(seq, z3.IntVal(0)))
 
-    def obj(self, cls: str, name="", sorts=None, **fields) -> VRef:
+    def obj(self, cls: str, _name="", _sorts=None, **fields) -> VRef:
         module, _, cname = cls.partition(":")
-        h = HObj((module, cname), dict(fields), dict(sorts or {}), name or cname)
+        h = HObj((module, cname), dict(fields), dict(_sorts or {}), _name or cname)
         return self.st.alloc(h)
 
     def dict(self, name=None, **items):
@@ -269,30 +269,21 @@ def term_py(v):
     return {"$term": str(v)[:200]}
 
 
-def discharge(pc, goal, axioms=(), timeout_ms=10000):
-    """-> (status, model|None, seconds, backend, smt2)"""
-    t0 = time.time()
-    s = z3.Solver()
-    s.set("timeout", timeout_ms)
-    for a in axioms:
-        s.add(a)
-    for p in pc:
-        s.add(p)
-    s.add(z3.Not(goal))
-    r = s.check()
-    dt = time.time() - t0
-    if r == z3.unsat:
-        return "discharged", None, dt, "z3", None
-    if r == z3.sat:
-        return "refuted", s.model(), dt, "z3", s.to_smt2()
-    # second opinion
-    smt2 = s.to_smt2()
-    from .solve import cvc5_check
+def discharge(pc, goal, axioms=(), timeout_ms=10000, inputs=None):
+    """-> (status, model dict|None, seconds, backend, smt2)"""
+    from .solve import check_sat
 
-    r2, dt2 = cvc5_check(smt2, timeout_ms)
-    if r2 == "unsat":
-        return "discharged", None, dt + dt2, "cvc5", None
-    return "undecided", None, dt + dt2, "z3+cvc5", smt2
+    goal = z3.simplify(goal) if not isinstance(goal, bool) else z3.BoolVal(goal)
+    st, model, backend, dt, smt2 = check_sat(
+        list(axioms) + list(pc) + [z3.Not(goal)], z3_ms=min(2500, timeout_ms), cvc5_ms=timeout_ms, value_terms=inputs, want_model=True
+    )
+    if st == "unsat":
+        return "discharged", None, dt, backend, None
+    if st == "sat":
+        if isinstance(model, z3.ModelRef):
+            model = {n: model_py(model, t) for n, t in (inputs or {}).items()}
+        return "refuted", (model or {}), dt, backend, smt2
+    return "undecided", None, dt, backend, smt2
 
 
 def verify_contract(cdef: ContractDef, tier="quick") -> dict:
@@ -385,14 +376,14 @@ def verify_contract(cdef: ContractDef, tier="quick") -> dict:
         # discharge, grouping by (kind,label)
         groups: dict[tuple[str, str], dict] = {}
         for kind, label, pc, goal, res in obls:
-            status, model, dt, backend, smt2 = discharge(pc, goal, axioms, 10000 if tier == "quick" else 30000)
+            status, model, dt, backend, smt2 = discharge(pc, goal, axioms, 10000 if tier == "quick" else 30000, c.inputs)
             g = groups.setdefault((kind, label), {"kind": kind, "label": label, "status": "discharged", "paths": 0, "time_s": 0.0, "backends": set(), "model": None, "smt2": None})
             g["paths"] += 1
             g["time_s"] += dt
             g["backends"].add(backend)
             if status == "refuted" and g["status"] != "refuted":
                 g["status"] = "refuted"
-                g["model"] = {n: model_py(model, t) for n, t in c.inputs.items()}
+                g["model"] = dict(model)
                 g["smt2"] = smt2
                 if res is not None and res.exc is not None:
                     g["model"]["$raised"] = res.exc.cls
@@ -429,3 +420,28 @@ def verify_contract(cdef: ContractDef, tier="quick") -> dict:
         rep["error"] = f"engine exception: {type(e).__name__}: {e}\n{traceback.format_exc()[-1500:]}"
     rep["wall_s"] = round(time.time() - t0, 3)
     return rep
+
+
+def props_after(names):
+    """entry driver: call the target, then read the named attributes/properties of `self`
+    in the post-state; the result value is the tuple (result, prop1, prop2, ...)."""
+
+    def entry(eng, c, func):
+        outs = eng.run(func, c.st, c.args, c.kwargs, self_val=c.self_val)
+        res = []
+        for s, o in outs:
+            if isinstance(o, Raised):
+                res.append((s, o))
+                continue
+            states = [(s, [o.val])]
+            for n in names:
+                nxt = []
+                for s2, acc in states:
+                    for s3, v in eng.get_attr(s2, c.self_val, n):
+                        nxt.append((s3, v if isinstance(v, Raised) else acc + [v]))
+                states = nxt
+            for s2, acc in states:
+                res.append((s2, acc if isinstance(acc, Raised) else Ret(VTuple(tuple(acc)))))
+        return res
+
+    return entry
